@@ -1067,7 +1067,7 @@ def clean(lines):
             break
 
 
-def drive(run, profile, nscripts, nops, theorem_pid=None, asan=False, reopen=False, extra_check=None, audit=False, geometry=0, boundary=0, bigfile=0, slack=True, destroy=0, thin=0, uplink=0, probe=0, hugekey=0, ringrun=0, skipfail=0, trailer=0):
+def drive(run, profile, nscripts, nops, theorem_pid=None, asan=False, reopen=False, extra_check=None, audit=False, geometry=0, boundary=0, bigfile=0, slack=True, destroy=0, thin=0, uplink=0, probe=0, hugekey=0, ringrun=0, skipfail=0, trailer=0, stalehead=0):
     """common body of the KV checks"""
     proofs_ok = run.proofs(theorem_pid or run.pid)
     impl = vlib.build_harness("h_kv", "asan" if asan else "plain")
@@ -1112,6 +1112,10 @@ def drive(run, profile, nscripts, nops, theorem_pid=None, asan=False, reopen=Fal
             rng = run.rng.fork()
             ls, meta = skipfail_script(rng, os.path.join(work, "sf%d.db" % n), wal=rng.below(2))
             scripts.append(("skipfail%d" % n, ls, meta))
+        for n in range(stalehead or 0):
+            rng = run.rng.fork()
+            ls, meta = stalehead_script(rng, os.path.join(work, "sh%d.db" % n), wal=rng.below(2))
+            scripts.append(("stalehead%d" % n, ls, meta))
         for n in range(ringrun or 0):
             rng = run.rng.fork()
             ls, meta = ringrun_script(rng, os.path.join(work, "rr%d.db" % n), wal=rng.below(2))
@@ -1455,6 +1459,31 @@ def skipfail_script(rng, path, wal=0):
         for _ in range(rng.choice([1, 3, 80])):
             L += ["cto %d %d" % (c, 7 - d1), "cget %d" % c]
     L += ["dump 0", "close"]
+    return L, {"modes": ["000"], "wal": wal}
+
+
+def stalehead_script(rng, path, wal=0):
+    """a skip list that is tall and then becomes flat under a long-lived cursor: T nodes of a forced level 3..6 and two
+    level-0 nodes at the head of the chain (the last of them with one record); the cursor is moved to the first record
+    and some steps on, many times (its ring of node copies is recycled, the database head lands in slots that held taller
+    nodes or the taller head); all tall nodes are deleted through the plain API; then the cursor deletes the single
+    record of the first node, which rewrites the database head from the cursor's copy - all 24 level links of it."""
+    T = rng.choice([3, 4, 5, 7])
+    lvl = rng.choice([3, 4, 5, 6])
+    n = 32 * (T + 1)
+    L = ["open %s %d 0 1 0" % (path, wal), "db 0 1 000"]
+    for i in range(n + 1):
+        L.append("level %d" % (lvl if i < 32 * T else 0))
+        L.append("put 0 %s 0 %s 0 0" % (hexb(b"k%04d" % i), hexb(rng.bytes(2))))
+    L.append("copen 0 0 1")
+    for it in range(rng.choice([30, 60, 100])):
+        L.append("cto 0 1")
+        L += ["cto 0 3"] * (1 + (it * 7) % 71)
+    L.append("cto 0 2")
+    for i in range(32 * T):
+        L.append("del 0 %s 0" % hexb(b"k%04d" % i))
+    L += ["struct 0", "ctokey 0 5 %s 0" % hexb(b"k%04d" % n), "cdel 0", "cclose 0", "struct 0", "sync", "dump 0", "close",
+          "open %s %d 0 0 0" % (path, wal), "db 0 1 000", "dump 0", "struct 0", "close"]
     return L, {"modes": ["000"], "wal": wal}
 
 
